@@ -116,6 +116,45 @@ fn check_doc(ctx: &mut Ctx, doc: &Doc) -> bool {
             }
         }
     }
+    // the other ways of building and taking apart the same values agree with the vector of (name, value) pairs
+    let api = guard(4096, || {
+        let re = lossy::Deb822::from_str(&text).ok()?;
+        let mut ok = re.len() == doc.len() && re.is_empty() == doc.is_empty();
+        for (p, m) in paras.iter().zip(doc.iter()) {
+            ok &= lossy::Paragraph::from(m.clone()) == *p;
+            ok &= p.clone().into_iter().collect::<Vec<_>>() == *m;
+            ok &= p.iter().map(|(k, v)| (k.to_string(), v.to_string())).collect::<Vec<_>>() == *m;
+            ok &= p.len() == m.len() && p.is_empty() == m.is_empty();
+            // a value changed through iter_mut is the value a later get/iter reports; names and order stay
+            let mut q = p.clone();
+            for (i, (_, v)) in q.iter_mut().enumerate() {
+                if i % 2 == 0 {
+                    v.push('x');
+                }
+            }
+            let want: Vec<(String, String)> = m.iter().enumerate().map(|(i, (k, v))| (k.clone(), if i % 2 == 0 { format!("{}x", v) } else { v.clone() })).collect();
+            ok &= q.iter().map(|(k, v)| (k.to_string(), v.to_string())).collect::<Vec<_>>() == want;
+        }
+        let mut d2 = re.clone();
+        for q in d2.iter_mut() {
+            q.insert("Zz-Added", "1");
+        }
+        ok &= d2.iter().zip(paras.iter()).all(|(a, b)| a.len() == b.len() + 1 && a.get("Zz-Added").as_deref() == Some("1"));
+        ok &= Vec::<lossy::Paragraph>::from(re.clone()) == paras;
+        ok &= re.into_iter().collect::<Vec<_>>() == paras;
+        Some(ok)
+    });
+    match api {
+        Ok(Some(true)) => ctx.count("constructors-and-iterators-agree"),
+        Ok(_) => {
+            ctx.violation(&format!("api-disagrees|lossy constructors/iterators|{}", shape), json!({"doc": doc}));
+            return false;
+        }
+        Err(f) => {
+            ctx.violation(&format!("{}|lossy constructors/iterators|{}", f.class(), shape), json!({"doc": doc, "failure": f.json()}));
+            return false;
+        }
+    }
     if let Some(s) = single {
         if s.as_ref() != Some(&paras[0]) {
             ctx.violation(&format!("reparse-unequal|lossy::Paragraph::from_str|{}", shape), json!({"doc": doc, "printed": clip(&text)}));
